@@ -1,6 +1,7 @@
 """C11 - Dataset operations keep every observation attached to its own descriptors (structural clauses)."""
 from __future__ import annotations
 import ast
+from ..model import AnalysisError
 
 from ..rules.common import where, norm, acc_named, Inliner
 from ..rules.containers import (field_provenance, selection_pairing, stable_sorts, no_axisless_squeeze, desc_normalised,
@@ -34,6 +35,10 @@ EXC = {
 
 
 def run(ctx, obs):
+    from ..rules import order as _order
+    _order.contracts(ctx, obs, ['util.data_utils.get_unique_unsorted', 'util.data_utils.get_unique_inverse', 'data.computations.average_dataset_by'])
+    if _order.report(ctx, obs, ['data.base.', 'data.dataset.', 'data.computations.', 'data.ops.', 'util.data_utils.']) < 6:
+        raise AnalysisError('C11: fewer order obligations than confirmed by hand (split_obs / split_channel x2, average_dataset_by, get_unique_inverse)')
     from ..rules import sweeps
     sweeps.run(ctx, obs, 'C11')
     prog = ctx.prog
